@@ -197,6 +197,10 @@ func (f *Flow) mkTerm(v ssa.Value) *Term {
 			z := &Term{K: TConst, C: new(big.Int), T: v.Type(), key: "0"}
 			return &Term{K: TBin, Op: token.SUB, A: z, B: a, T: v.Type(), key: "(0 - " + a.key + ")"}
 		case token.MUL:
+			// a read out of a constant table (consttab.go)
+			if t := f.w.ctabTermOf(v, f.term); t != nil {
+				return t
+			}
 			// load of a field of the receiver / a pointer parameter: one symbol per
 			// field (the codec functions do not reassign a table between a guard
 			// on it and the guarded use)
@@ -262,6 +266,13 @@ func (f *Flow) mkTerm(v ssa.Value) *Term {
 		if b, ok := x.X.Type().Underlying().(*types.Basic); ok && b.Info()&types.IsString != 0 {
 			a, i := f.term(x.X), f.term(x.Index)
 			return &Term{K: TPure, Name: "strindex", Args: []*Term{a, i}, T: v.Type(), key: "idx(" + a.key + "," + i.key + ")"}
+		}
+		if t := f.w.ctabTermOf(v, f.term); t != nil {
+			return t
+		}
+	case *ssa.Field:
+		if t := f.w.ctabTermOf(v, f.term); t != nil {
+			return t
 		}
 	case *ssa.Lookup:
 		// indexing an (immutable) string: one symbol per (string, index)
@@ -472,6 +483,12 @@ func (f *Flow) evalStruct(t *Term, env Env, fl *evalFlags) ISet {
 					return r.Intersect(top)
 				}
 			}
+		case t.Name == "ctab":
+			// an entry of a constant table: the union over the possible indices
+			if r := f.w.ctabEval(t, f.eval(t.Args[0], env, fl)); r != nil {
+				return r
+			}
+			return top
 		case t.Name == "getTag":
 			fs := f.eval(t.Args[0], env, fl)
 			if fs == nil || fs.Contains(-1) {
@@ -1016,6 +1033,14 @@ func (f *Flow) assign(env Env, t *Term, s ISet) {
 			if sum := f.finCallee(t); sum != nil {
 				if cur := f.finArgSet(t.Args[0], env); cur != nil {
 					f.assign(env, t.Args[0], sum.preimage(cur, s))
+				}
+			}
+		}
+		// ctab(i) ∈ s narrows i to the indices whose entry is in s
+		if t.Name == "ctab" {
+			if cur, _ := f.Eval(t.Args[0], env); cur != nil {
+				if nw, ok := f.w.ctabNarrow(t, cur, s); ok {
+					f.assign(env, t.Args[0], nw)
 				}
 			}
 		}
